@@ -127,6 +127,17 @@ def _escaping_to(cg, ef, site_func, node, exc, entries):
     return [e for e in entries if e in S]
 
 
+def _raise_condition(f, raise_node) -> str:
+    """Identity of a raise site inside its function: the branch conditions it is taken under (local names replaced by
+    placeholders), not the message - rewording a message does not detach a known finding, changing the condition does."""
+    g = cfg_of(f.node)
+    n = g.node_of_stmt.get(raise_node)
+    if n is None:
+        return 'raise'
+    conds = sorted(f"{norm_text(t.ast, f.node, 60)}:{lab}" for t, lab in dom.guards_of(g, n) if t.kind == 'test')
+    return 'raise when ' + ' & '.join(conds) if conds else 'raise unconditionally'
+
+
 def escapes(ctx, cg, ef, entries):
     sm, sc, res = ctx.sm, ctx.schema, ctx.res
     res.rule('R-EFF.escape', "every explicit raise that can escape a public entry point is of a documented class (XSD*/XMLElement*/XMLChildContainer* families, TypeError, "
@@ -143,7 +154,7 @@ def escapes(ctx, cg, ef, entries):
                 res.ok('R-EFF.escape', f.fq, f"`{short(r.node, 60)}` ({r.exc}) is caught before it reaches an entry point", line=r.node.lineno)
                 continue
             ok, why = _discharge(ctx, cg, ef, f, r)
-            key = f"R-EFF.escape|{r.exc}|{f.qualname}|{norm_text(r.node, f.node, 70)}"
+            key = f"R-EFF.escape|{r.exc}|{f.qualname}|{_raise_condition(f, r.node)}"
             if ok:
                 res.ok('R-EFF.escape', f.fq, f"`{short(r.node, 60)}` ({r.exc}) cannot be reached: {why}", line=r.node.lineno)
             else:
@@ -392,7 +403,7 @@ def discarded_exceptions(ctx, cg, entries):
                 if nm.endswith('Error') or nm.endswith('Exception'):
                     n += 1
                     res.finding('R-EXH.discarded', f.fq, f"`{short(st, 60)}` is raised, not dropped",
-                                "the object is built and discarded; execution continues with the case unhandled", key=f"R-EXH.discarded|{f.qualname}|{norm_text(st, f.node, 50)}",
+                                "the object is built and discarded; execution continues with the case unhandled", key=f"R-EXH.discarded|{f.qualname}|{nm}",
                                 line=st.lineno)
     if n == 0:
         res.ok('R-EXH.discarded', 'runtime closure', "no discarded exception object")
